@@ -161,7 +161,7 @@ def run(chk, scratch):
     for wi in range(n_worlds):
         seed = chk.seed * 31 + wi
         d0 = os.path.join(scratch, "w%d_v0" % wi)
-        w = world2.rich_world(seed, n_chroms=4, genes_per_chrom=2, reads_per_t=3, hidden_cov=3)
+        w = world2.rich_world(seed, n_chroms=4, genes_per_chrom=2, reads_per_t=3, hidden_cov=3, zoo=world2.ZOO_ALL)
         # more multi-mapper families: inconsistent and noninformative alignments on the paralogs
         rng = w.rng
         fam = [g for g in w.genes if g.id == "G1_1" or g.id.startswith("P")]
